@@ -191,8 +191,8 @@ theorem keyedWalk_balanced (cfg : Cfg) (p : Path) (sa oa : Val) (i : Nat) (xs : 
       obtain ⟨j, y⟩ := jy
       rw [hf] at h
       simp only at h
-      have hcb := classifyItem_balanced cfg p (p ++ [if i = j then PSeg.idx i else PSeg.idx2 i j]) (p ++ [.idx i]) sa oa x y
-      cases hcl : classifyItem cfg p (p ++ [if i = j then PSeg.idx i else PSeg.idx2 i j]) (p ++ [.idx i]) sa oa x y with
+      have hcb := classifyItem_balanced cfg p (p ++ [if i = j then PSeg.idx i else PSeg.idx2 i j]) (p ++ [if i = j then PSeg.idx i else PSeg.idx2 i j]) sa oa x y
+      cases hcl : classifyItem cfg p (p ++ [if i = j then PSeg.idx i else PSeg.idx2 i j]) (p ++ [if i = j then PSeg.idx i else PSeg.idx2 i j]) sa oa x y with
       | emit r0 s =>
         rw [hcl] at h hcb
         simp only at h
